@@ -98,7 +98,7 @@ structure Tc where
   rule : Rule
   cache : Cache := []
   ev : Bool := false           -- ghost: this controller's cache has evicted a key at least once
-  deriving Repr, Inhabited
+  deriving Repr, Inhabited, DecidableEq
 
 /-- does the rule apply to an entry on `res` and which value does it select (`nil` = not limited) -/
 def Rule.sel (r : Rule) (res : String) (args : List Val) (atts : List (String × Val)) : Val :=
